@@ -357,6 +357,8 @@ class VerifyTask:
             # feasibility checks at branches: an `unknown` answer keeps the branch (sound), so a contract whose
             # path conditions carry quantifiers may ask for a shorter budget per check
             self.config.branch_timeout_ms = c.branch_timeout_ms
+        if getattr(c, "cover_timeout_ms", None):
+            self.config.cover_timeout_ms = c.cover_timeout_ms
         self.ref = fn_override or SRC.resolve(c.target)
         self.used_contracts: set = set()
         self.inlined: set = set()
